@@ -2,14 +2,22 @@ import vflib
 WRAPS = ("psGetEntropy", "gettimeofday", "time")
 def run(ctx):
     st = [dict(variant="asan", name="c16", sources=["checks/c16_dtls.c", "harness/mx_wraps.c"], wraps=WRAPS,
-               shards=vflib.NCPU, timeout=7200 if ctx.thorough else 900)]
-    rule = ("Each case = one delivery schedule (one fate per datagram in send order: deliver, drop, duplicate, late duplicate, delay k rounds, swap with next; optionally spurious "
-            "timer expiries) applied to a complete in-memory DTLS handshake plus data exchange, or one replay position of one captured record/datagram in an established session. "
-            "distinct_nontrivial = distinct (version, suite, PMTU, handshake kind, schedule signature = fates actually consumed + spurious-timeout events) for schedules and distinct "
-            "(version, suite, PMTU, handshake kind, establishment variant, replay mode, record identity (direction, epoch, sequence), position) for replays.")
+               shards=vflib.NCPU, timeout=10800 if ctx.thorough else 1500)]
+    rule = ("Each case = (a) one delivery schedule - one fate per datagram in global send order: deliver, drop, duplicate, late duplicate, delay k rounds, swap with next, "
+            "delayed-and-duplicated; optionally spurious timer expiries - applied to a complete in-memory DTLS handshake (full / session-id resumed / client-auth) plus a "
+            "bidirectional data exchange, driven with the reference applications' discipline in logical rounds: all 2^m drop patterns over the first m datagrams, every single "
+            "duplicate/swap/delay position, seeded random schedules, every single spurious-timeout point; or (b) one replay case on a fork()ed clone of an established session "
+            "(four establishment variants): each captured record / multi-record datagram (epoch 0 handshake, Finished, application data, superseded-epoch Finished) replayed at "
+            "each position of a fresh exchange alone, after the peer's Finished, twice, or in pairs; and the sequence-gap family (g = 1..40 datagrams lost in a row, then replays "
+            "of the post-gap, pre-gap, older and late in-window records). Suites PSK-CBC (0x008c, 0x00ae), RSA-CBC/GCM (0x002f, 0x009c), ECDHE-RSA-CBC/GCM (0xc013, 0xc02f) x "
+            "DTLS 1.0/1.2 x PMTU 1500/600/400 (256 for PSK). distinct_nontrivial = distinct (version, suite, PMTU, handshake kind, fates actually consumed, spurious events) for "
+            "schedules and distinct (version, suite, PMTU, kind, establishment, mode, record identity (direction, epoch, sequence, datagram?), second record, position) or "
+            "(…, gap, variant, direction) for replays.")
     return vflib.std_run(ctx, st, "fault_enumeration", rule,
-        ["the transport drops, duplicates, delays and reorders whole datagrams but never forges or truncates them (forgery is C02/C08)",
-         "timers are modelled as logical rounds: a retransmission timer fires only when the network is empty (reference-application discipline), except in the explicit spurious-timeout class",
+        ["the transport drops, duplicates, delays and reorders whole datagrams but never forges, truncates or coalesces them (forgery is C02/C08)",
+         "timers are logical: a retransmission timer fires only in a round with an empty network (reference-application discipline: server session created on first datagram, "
+         "completed client never times out, resumed-complete server never resends), except in the explicitly generated spurious-timeout class",
          "rehandshakes are compiled out in this configuration, so 'previous epoch' means epoch 0 and the epoch of a superseded (retransmitted) Finished",
-         "replay window behaviour beyond 32 records of reordering is not exercised (delays are at most 9 rounds)"],
+         "PMTU 256 is only exercised with PSK suites: a 2048-bit RSA ClientKeyExchange/ServerKeyExchange/CertificateVerify does not fit one 256-byte datagram and the library answers internal_error by design",
+         "an application datagram that the schedule itself delays across rounds carries no delivery obligation (a record of a superseded epoch may be discarded); at-most-once still applies"],
         min_nontrivial=2000)
